@@ -26,13 +26,13 @@ CHECKS = {
  'C02': dict(cat='model_checking', engine='irsym', technique='symbolic execution of the LLVM IR (clang -O1) of all 197 real emulator kernels with own IR executor + z3; closed forms proved equal lane by lane to reference semantics written from the documentation; FP via z3 FP theory with congruence abstraction',
              text='Every kernel, every operand value (solver), n in 1..4 lanes, symbolic chunk offset (position independence); interpreter validated against the natively compiled kernels on each run.',
              note='reference = engines/orcref.py (documentation decisions listed in evidence); shifts limited to 0..width-1; ldres positions enumerated with symbolic array contents; NaN compared by NaN-ness.', ref='DESIGN.md#c02'),
- 'C03': dict(cat='translation_validation', engine='x86sym', technique='same symbolic machine-code executions as C01; every load/store event of every feasible path is checked against the entitlement derived from the opcode definitions (oracle read set, [0,n*size) for destinations); alignment obligations of aligned-only instructions decided by z3',
+ 'C03': dict(cat='translation_validation', engine='x86sym', technique='same symbolic machine-code executions as C01; every load/store event of every feasible path is checked against the entitlement derived from the opcode definitions (oracle read set, [0,n*size) for destinations); alignment obligations of aligned-only instructions decided by z3; plus symbolic execution (own LLVM-IR engine, -O0 IR) of every real emulator kernel on operand objects of exactly the entitled size, n=1..5: an access outside them is a fault path',
              text='No access outside the entitled bytes for any n<=bound, any base alignment, 1-2 rows; no store to a source; aligned-only instructions provably aligned.',
-             note='machine code only (generated C and emulator kernels: access footprints in C04/C02); speculative reads and prefetch hints ignored.', ref='DESIGN.md#c03'),
+             note='machine code (symbolic n/alignment) and emulator kernels (n<=5, offset 0; ldres*/loadoff* kernels outside: their index arithmetic is C02); generated C: access footprints in C04; speculative reads and prefetch hints ignored.', ref='DESIGN.md#c03'),
  'C10': dict(cat='translation_validation', engine='x86sym', technique='same symbolic executions with the whole entry machine state symbolic; callee-saved registers, rsp, caller stack, DF, MXCSR control bits (for every entry value), MMX state and store targets compared at ret (syntactic, else z3)',
              text='SysV AMD64 callee obligations on every feasible path of every program of the family on sse/avx/mmx (default flags; every 6th program and the structural extras also with the frame-pointer flag).',
              note='entry rounding mode fixed to nearest; exception status bits of MXCSR are sticky flags and not part of the contract; upper YMM cleanliness not checked.', ref='DESIGN.md#c10'),
- 'C11': dict(cat='translation_validation', engine='x86sym', technique='compile with each feature-flag subset and symbolically execute with the matching allowed ISA classes: reaching an instruction outside the set on a feasible path is a fault (decoder classifies per instruction form)',
+ 'C11': dict(cat='translation_validation', engine='x86sym', technique='compile with each feature-flag subset and symbolically execute with the matching allowed ISA classes: reaching an instruction outside the set on a feasible path is a fault (decoder classifies per instruction form); programs whose bytes are identical under a reduced flag set are decoded completely and every instruction class compared with the flags (static scan, whole family)',
              text='quick: all features, minimal, each single feature removed, per target, on a quarter of the family each; thorough: every subset x whole family.',
              note='ISA classes from the Intel SDM as encoded in engines/x86sym/decoder.py; 32-bit code generation outside; result equality under reduced flags checked in the thorough tier of C01.', ref='DESIGN.md#c11'),
  'C13': dict(cat='model_checking', engine='irsym', technique='symbolic execution (LLVM IR, own executor + z3, path forking) of the real construction API, encoder, decoder and re-encoder on bounded arbitrary valid programs with symbolic sizes, alignments, constants, settings and flags; field-wise and byte-wise equalities decided per path',
